@@ -763,36 +763,15 @@ def deep_call_names(body, op, depth=3):
 # more shared helpers
 
 def return_origin(body):
-    """union of the origins of everything assigned to the return place (Ok/Err payloads, forwarded results)"""
-    res = Origin()
+    """origin of everything assigned to the return place (Ok/Err payloads, forwarded results), plus
+    ('ret', adt, variant) atoms naming the aggregates built directly into it"""
+    res = origin(body, {'copy': {'l': 0}})
     for d in body.defs().get(0, []):
         bb, idx, kind, payload, lhs = d
         if bb not in body.live_blocks() or body.is_cleanup(bb):
             continue
-        ops = []
-        if kind == 'assign':
-            rv = payload
-            if rv['k'] == 'agg':
-                ops = list(rv['ops'])
-                if rv.get('agg') == 'adt':
-                    res.atoms.add(('ret', rv.get('adt'), rv.get('variant')))
-            elif rv['k'] == 'use':
-                ops = [rv['op']]
-        elif kind == 'call':
-            t = payload
-            res.calls.append(t)
-            tr = transparent(t)
-            if tr is not None and tr[0] < len(t['args']):
-                res.flags.add(tr[1])
-                ops = [t['args'][tr[0]]]
-            else:
-                res.atoms.add(('call', cname(t), body.id, bb))
-        for op in ops:
-            o = origin(body, op)
-            res.atoms |= o.atoms
-            res.flags |= o.flags
-            res.fields |= o.fields
-            res.calls += o.calls
+        if kind == 'assign' and payload['k'] == 'agg' and payload.get('agg') == 'adt':
+            res.atoms.add(('ret', payload.get('adt'), payload.get('variant')))
     return res
 
 
@@ -846,3 +825,73 @@ def short_fn(label):
     if len(parts) >= 2 and parts[-2][:1].isupper():
         return '%s::%s%s' % (parts[-2], parts[-1], suffix)
     return parts[-1] + suffix
+
+
+def expr_tree(body, op, depth=8, at_bb=None):
+    """expression tree of an operand following unique definitions: nested tuples
+    ('c', int) | ('named', path) | ('param', n) | ('field', name, base) | ('index', base, idx) | (binop, l, r) |
+    ('cast', to_ty, e) | ('call', callee, [args]) | ('?', why)"""
+    if depth <= 0:
+        return ('?', 'depth')
+    c = op_const(op) if isinstance(op, dict) and ('const' in op) else None
+    if c is not None:
+        v = c.get('val', {})
+        if 'named' in c and 'promoted' not in c:
+            return ('named', c['named'])
+        if 'int' in v:
+            return ('c', v['int'])
+        if 'fn' in c:
+            return ('fn', c['fn'])
+        return ('const', c.get('ty'))
+    p = op_place(op) if isinstance(op, dict) and ('copy' in op or 'move' in op) else op
+    if p is None:
+        return ('?', 'operand')
+    return _place_tree(body, p, depth)
+
+
+def _place_tree(body, p, depth):
+    l = p['l']
+    proj = p.get('p', [])
+    base = _local_tree(body, l, depth)
+    for e in proj:
+        if e == '*':
+            continue
+        if isinstance(e, dict):
+            if 'f' in e:
+                base = ('field', e['f'], base)
+            elif 'i' in e:
+                base = ('field', str(e['i']), base)
+            elif 'idx' in e:
+                base = ('index', base, _local_tree(body, e['idx'], depth - 1))
+            elif 'cidx' in e:
+                base = ('index', base, ('c', e['cidx']))
+            elif 'as' in e:
+                base = ('as', e['as'], base)
+    return base
+
+
+def _local_tree(body, l, depth):
+    if depth <= 0:
+        return ('?', 'depth')
+    if 1 <= l <= body.nargs:
+        return ('param', l)
+    defs = [d for d in body.defs().get(l, []) if d[0] in body.live_blocks() and not body.is_cleanup(d[0]) and not d[4].get('p')]
+    if len(defs) != 1:
+        return ('?', '%d defs of _%d' % (len(defs), l))
+    bb, idx, kind, payload, lhs = defs[0]
+    if kind == 'call':
+        t = payload
+        return ('call', cname(t), [expr_tree(body, a, depth - 1) for a in t['args']])
+    rv = payload
+    k = rv['k']
+    if k == 'use':
+        return expr_tree(body, rv['op'], depth - 1)
+    if k in ('ref', 'rawptr'):
+        return _place_tree(body, rv['place'], depth - 1)
+    if k == 'cast':
+        return ('cast', rv['to'], expr_tree(body, rv['op'], depth - 1))
+    if k == 'bin':
+        return (rv['op'], expr_tree(body, rv['l'], depth - 1), expr_tree(body, rv['r'], depth - 1))
+    if k == 'un':
+        return (rv['op'], expr_tree(body, rv['a'], depth - 1))
+    return ('?', k)
